@@ -13,6 +13,7 @@ import Panoptica.Model.Result
 import Panoptica.Model.Geometry
 import Panoptica.Model.Evaluate
 import Panoptica.Model.Pipeline
+import Panoptica.Model.Aggregator
 open Lean Panoptica
 
 abbrev P := Except String
@@ -164,6 +165,59 @@ def eoJ (x : Except String (Option RVal)) : Json :=
   | .ok none => Json.str "absent"
   | .error e => Json.mkObj [("error", Json.str e)]
 
+/-! ### aggregator machine -/
+open Panoptica.Agg in
+def pcName : Agg.PC → String
+  | .start => "start" | .read => "read" | .writeBuf => "writeBuf" | .relL1 => "relL1" | .relL1Skip => "relL1Skip"
+  | .compute => "compute" | .wantL2 => "wantL2" | .writeOut1 => "writeOut1" | .writeOut2 => "writeOut2"
+  | .relL2 => "relL2" | .sWant => "sWant" | .sRead => "sRead" | .sRel => "sRel" | .done => "done"
+
+def cpcName : Agg.CPC → String
+  | .checkExists => "checkExists" | .writeHdrNew => "writeHdrNew" | .readHdr => "readHdr"
+  | .writeHdrEmpty => "writeHdrEmpty" | .rmBuf => "rmBuf" | .mkBuf => "mkBuf" | .acq1 => "acq1" | .acq2 => "acq2"
+  | .readIds => "readIds" | .writeIds _ => "writeIds" | .rel2 => "rel2" | .rel1 => "rel1"
+
+def phaseName : Agg.Phase → String
+  | .idle => "idle" | .ctor pc => "ctor." ++ cpcName pc | .running => "running" | .failed => "failed"
+
+def optNatJ : Option Nat → Json
+  | some n => n
+  | none => Json.null
+
+def worldJ (n : Nat) (w : Agg.World) : Json :=
+  Json.mkObj [("out_exists", w.outExists), ("hdrs", w.hdrs), ("buf_exists", w.bufExists),
+    ("rows", Json.arr (w.st.out.map (fun r => Json.arr #[r.name, r.tid, r.complete])).toArray),
+    ("buf", natsJ w.st.buf), ("l1", optNatJ w.st.l1), ("l2", optNatJ w.st.l2), ("phase", phaseName w.phase),
+    ("pcs", Json.arr ((List.range n).map (fun i => Json.str (pcName (w.st.pc i)))).toArray),
+    ("seen", Json.arr ((List.range n).map (fun i => Json.arr ((w.st.seen i).map (fun r => Json.arr #[r.name, r.tid, r.complete])).toArray)).toArray)]
+
+def asKinds (j : Json) : P (Nat → Agg.Kind) := do
+  let l ← asList asStr j
+  pure (fun i => if l.getD i "eval" == "stat" then Agg.Kind.stat else Agg.Kind.eval)
+
+def asAggOp (j : Json) : P Agg.Op := do
+  let a ← asArr j
+  match ← asStr a[0]! with
+  | "new" => pure (Agg.Op.newSession (← asKinds a[1]!))
+  | "ctor" => pure Agg.Op.ctor
+  | "thread" => pure (Agg.Op.thread (← asNat a[1]!))
+  | "crash" => pure Agg.Op.crash
+  | s => throw s!"unknown agg op {s}"
+
+def aggTrace (j : Json) : P Json := do
+  let init ← fld j "init"
+  let rows ← asNats (← fld init "rows")
+  let w0 := Agg.initWorld (← asBool (← fld init "out_exists")) (← asBool (← fld init "hdr"))
+    (rows.map (fun n => (⟨n, 0, true⟩ : Agg.Row))) (← asBool (← fld init "buf_exists")) (← asNats (← fld init "buf"))
+  let names ← asNats (← fld j "names")
+  let name : Nat → Nat := fun i => names.getD i 0
+  let ops ← asList asAggOp (← fld j "ops")
+  let n := names.length
+  let (_, trace) := ops.foldl (fun (acc : Agg.World × List Json) op =>
+    let w' := Agg.wstep name acc.1 op
+    (w', acc.2 ++ [worldJ n w'])) (w0, [])
+  pure (Json.arr trace.toArray)
+
 def handle (j : Json) : P Json := do
   let op ← asStr (← fld j "op")
   match op with
@@ -304,6 +358,7 @@ def handle (j : Json) : P Json := do
       let gs ← asList asGroup gs
       pure (exceptJ (fun l => Json.arr (l.map (fun (n, o) => Json.arr #[Json.str n, exceptJ pipeOutJ o])).toArray)
         (evaluateGroups cfg bits gs pred ref))
+  | "agg_trace" => aggTrace j
   | s => throw s!"unknown op {s}"
 
 partial def loop (inp out : IO.FS.Stream) : IO Unit := do
